@@ -45,7 +45,15 @@ func genC07(rng *rand.Rand, n int, emit func(Case), dist map[string]int) {
 	var markers []string
 	var genErr func(depth int) (error, Sx)
 	genMsg := func() (interface{}, Sx) {
-		switch rng.Intn(4) {
+		switch rng.Intn(5) {
+		case 4:
+			// a message that formats itself (json.Marshaler) - and is an error as well: it must go out as its own JSON
+			v := c07SelfJSON{Detail: fmt.Sprintf("self%d", rng.Intn(100))}
+			b, _ := json.Marshal(v)
+			canon := map[string]interface{}{}
+			json.Unmarshal(b, &canon)
+			b, _ = json.Marshal(canon)
+			return v, L(I(2), S(string(b)))
 		case 0:
 			m := fmt.Sprintf("public message %d", rng.Intn(100))
 			return m, L(I(0), S(m))
@@ -300,3 +308,11 @@ func genC07(rng *rand.Rand, n int, emit func(Case), dist map[string]int) {
 		emit(cs)
 	}
 }
+
+// c07SelfJSON is an HTTPError message that is a json.Marshaler and an error at the same time.
+type c07SelfJSON struct{ Detail string }
+
+func (m c07SelfJSON) MarshalJSON() ([]byte, error) {
+	return json.Marshal(map[string]string{"self_formatted": m.Detail})
+}
+func (m c07SelfJSON) Error() string { return "error text of a self-formatting message: " + m.Detail }
